@@ -189,14 +189,24 @@ X_DIRECTED = [
     # palette / sauce / font page swaps and their undo
     ((base_doc(6, 4, [(6, 4, 0, 0, 1, 0, [[A, Bc]])]), 0, 1, 3, 1, [(2, 5)], 2),
      [('pal', [0, 0xAA0000, 0x00AA00]), ('sauce', [2, 80, 25]), ('fontpage', [1]), ('sauce', [0, 0, 0]), ('U', []), ('U', []), ('U', []), ('U', []), ('R', []), ('R', []), ('R', []), ('R', [])]),
-    # known: set font writes the caret's slot, records slot 0
+    # fixed (C08-setfont-records-slot0): set font writes the caret's slot and records the font of THAT slot
     ((base_doc(6, 4, [(6, 4, 0, 0, 1, 0, [])]), 0, 1, 3, 0, [(2, 5)], 2), [('setfont', [7]), ('U', []), ('R', [])]),
-    # known: add font on an occupied slot
+    # fixed (C08-addfont-overwrites-slot): add font on an occupied slot
     ((base_doc(6, 4, [(6, 4, 0, 0, 1, 0, [])]), 0, 1, 3, 0, [(2, 5)], 0), [('addfont', [2]), ('U', []), ('R', [])]),
-    # change font slot onto an occupied slot (from <> 0)
+    # fixed (C08-fontslot-overwrites-slot): change font slot onto an occupied slot (from <> 0)
     ((base_doc(6, 4, [(6, 4, 0, 0, 1, 0, [[enc(65, 7, 0, 2, 0)]])]), 0, 1, 3, 0, [(2, 5), (3, 6)], 0), [('fontslot', [2, 3]), ('U', []), ('R', [])]),
-    # known: resize with a SAUCE record of another size
+    # fixed (C08-resize-rewrites-sauce-size): resize / crop / resize with layers with a SAUCE record of another size
     ((base_doc(6, 4, [(6, 4, 0, 0, 1, 0, [])]), 0, 1, 0, 2, [], 0), [('xresize', [3, 2]), ('U', []), ('R', [])]),
+    ((base_doc(6, 4, [(6, 4, 0, 0, 1, 0, [[A, Bc]])]), 0, 1, 0, 2, [], 0),
+     [('croprect', [1, 0, 4, 3]), ('sauce', [1, 9, 9]), ('resize1', [3, 2]), ('xresize', [5, 5]), ('U', []), ('U', []), ('U', []), ('U', []), ('R', []), ('R', []), ('R', []), ('R', [])]),
+    # set font on an EMPTY caret slot (undo empties it again), with slot 0 removed, and in the modes that write slot 0
+    ((base_doc(6, 4, [(6, 4, 0, 0, 1, 0, [])]), 0, 1, 3, 0, [(2, 5)], 3),
+     [('setfont', [7]), ('saucefont', [1]), ('U', []), ('U', []), ('R', []), ('R', []), ('remfont', [0]), ('setfont', [5]), ('fontpage', [0]), ('setfont', [1]), ('U', []), ('U', []), ('U', []), ('U', [])]),
+    ((base_doc(6, 4, [(6, 4, 0, 0, 1, 0, [])]), 0, 1, 1, 0, [(2, 5)], 2), [('setfont', [7]), ('saucefont', [1]), ('U', []), ('U', []), ('R', []), ('R', [])]),
+    # add font twice onto the same slot, change font slot back and forth over occupied slots, undo everything, redo everything
+    ((base_doc(6, 4, [(6, 4, 0, 0, 1, 0, [[enc(65, 7, 0, 2, 0)]])]), 0, 1, 3, 0, [(2, 5), (3, 6)], 0),
+     [('addfont', [2]), ('addfont', [2]), ('fontslot', [2, 3]), ('fontslot', [3, 2]), ('fontslot', [2, 2]), ('U', []), ('U', []), ('U', []), ('U', []), ('U', []),
+      ('R', []), ('R', []), ('R', []), ('R', []), ('R', []), ('U', []), ('U', []), ('R', []), ('R', [])]),
     # ice / palette modes
     ((base_doc(6, 4, [(6, 4, 0, 0, 1, 0, [[A, Bc, Sp, enc(176, 3, 10, 0, 0), enc(220, 1, 9, 0, 0)]])]), 0, 1, 0, 0, [], 0),
      [('ice', [1]), ('ice', [2]), ('palmode', [2]), ('palmode', [0]), ('palmode', [3]), ('palmode', [1]), ('U', []), ('U', []), ('U', []), ('U', []), ('U', []), ('U', []),
